@@ -171,6 +171,8 @@ class TU:
             c2 = 'assert' if r2[0] == 42 else 'ok' if r2[0] == 0 else 'rc%d' % r2[0]
             # library assert()/crash: the native build aborts (134/-6/-11), the translated build fails the corresponding obligation (42)
             if c1 in ('rc134', 'rc-6', 'rc-11', 'rc139') and c2 == 'assert': c1 = 'assert'
+            # a real hang in an atomic wait (native run killed) corresponds to the model's 'would block forever' obligation
+            if c1 == 'rc-9' and c2 == 'assert' and 'block forever' in r2[2]: c1 = 'assert'; o1 = o2
             if o1 == o2 and c1 == c2:
                 # identical behaviour (also an identical crash/abort caused by the library itself) is agreement
                 ok += 1
